@@ -158,6 +158,7 @@ type FmtObservation struct {
 	AST2      map[string]any // fragment JSON of Parse(F1) or nil
 	AF        []string       // AST features of Parse(src)
 	AF1       []string       // AST features of Parse(F1)
+	DiffAt    string         // where F1 and F2 first differ (see DiffAt); "" when equal
 }
 
 func ObserveFmt(src string) (o FmtObservation) {
@@ -176,6 +177,86 @@ func ObserveFmt(src string) (o FmtObservation) {
 	}
 	o.AST2, _ = Frag(m2)
 	o.AF1 = ASTFeatures(m2, o.F1)
+	// DiffAt needs the ranges of m2 as parsed, before Format touches the tree
+	m2b, _ := d2parser.Parse("", strings.NewReader(o.F1), nil)
 	o.F2 = d2format.Format(m2)
+	if o.F2 != o.F1 && m2b != nil {
+		o.DiffAt = DiffAt(o.F1, o.F2, m2b)
+	}
 	return o
+}
+
+// DiffAt classifies WHERE two formatting passes first differ, in terms of the AST of the first pass' text
+// (m1 = Parse(f1)): the innermost node that strictly contains the first differing byte and holds the whole
+// differing region of f1 (what remains after cutting the common prefix and suffix).  A difference at the very
+// start of a node belongs to its parent (the separator / layout before it changed).
+//   "block-string" | "comment" | "value-string" (scalar or substitution in value position) | "key-string" |
+//   "import" | "layout" (between the nodes of a map / array / key: blank lines, separators, moved or dropped nodes)
+// Used by the C03 driver to name the cause: the listed findings are all layout-level (or CRLF inside block strings /
+// keys), so a new non-idempotence inside a string, block string or comment gets its own, unlisted signature.
+func DiffAt(f1, f2 string, m1 *d2ast.Map) string {
+	pos := 0
+	for pos < len(f1) && pos < len(f2) && f1[pos] == f2[pos] {
+		pos++
+	}
+	// end of the differing region in f1 (after removing the common suffix)
+	end := len(f1)
+	for e2 := len(f2); end > pos && e2 > pos && f1[end-1] == f2[e2-1]; {
+		end--
+		e2--
+	}
+	// … but no further than the line of the first difference (several independent differences must not merge)
+	if i := strings.IndexByte(f1[pos:], '\n'); i >= 0 && pos+i < end {
+		end = pos + i
+	}
+	kind := "layout"
+	var walk func(n d2ast.Node, inKey bool)
+	walk = func(n d2ast.Node, inKey bool) {
+		if n == nil {
+			return
+		}
+		r := n.GetRange()
+		_, isMap := n.(*d2ast.Map)
+		// the node must hold the whole differing region, and the region must not start at the node's first byte
+		if !(isMap && n == d2ast.Node(m1)) && !(r.Start.Byte < pos && pos < r.End.Byte && end <= r.End.Byte) {
+			return
+		}
+		switch x := n.(type) {
+		case *d2ast.BlockString:
+			kind = "block-string"
+			return
+		case *d2ast.Comment, *d2ast.BlockComment:
+			kind = "comment"
+			return
+		case *d2ast.Import:
+			kind = "import"
+		case *d2ast.Substitution:
+			if inKey {
+				kind = "key-string"
+			} else {
+				kind = "value-string"
+			}
+			return
+		case *d2ast.UnquotedString, *d2ast.DoubleQuotedString, *d2ast.SingleQuotedString, *d2ast.Number, *d2ast.Boolean, *d2ast.Null, *d2ast.Suspension:
+			if inKey {
+				kind = "key-string"
+			} else {
+				kind = "value-string"
+			}
+			return
+		case *d2ast.KeyPath:
+			kind = "layout"
+			for _, c := range x.Children() {
+				walk(c, true)
+			}
+			return
+		default:
+			kind = "layout"
+		}
+		for _, c := range n.Children() {
+			walk(c, inKey)
+		}
+	}
+	walk(m1, false)
+	return kind
 }
